@@ -18,7 +18,13 @@
         `await _receive` returns normally; the same packet delivered the way the faces do (a task nobody
         holds) leaves nothing in the loop's exception handler after gc; pending Interests and handlers that
         the packet does not address (by name) are untouched; afterwards every still-pending Interest
-        completes normally with its Data and every handler still gets its Interest.
+        completes normally with its Data and every handler still gets its Interest;
+      * the same oracle in the REACHABLE STATES of the pending-Interest table (oracle_states): the table is first
+        brought, by a history, into a state described by a word (several Interests under the packet's name:
+        waiting, given up / expiring in the very loop turn in which the packet is processed -- entry still listed,
+        future already cancelled --, completed earlier in each way, under validation; CanBePrefix parents; foreign
+        implicit digests), then the packet is handed over awaited / as a task / as a task in the loop iteration in
+        which the lifetime timers fire.
 """
 import asyncio
 import copy
@@ -40,8 +46,19 @@ RULE = ('(A) packet lists (types/lengths over all four var-number forms incl. no
         'without reason, IDLE LpPacket, fragmented LpPacket, unknown types) and its C07 mutant stream (byte edits, '
         'truncations, Type/Length edits in all forms, structural edits at every level), with consistent and '
         'inconsistent (typ, outer Length) framing, random byte strings; states with 0-4 pending Interests '
-        '(some named like the packet) and 0-3 handlers.  non-trivial = stream/packet of >= 4 bytes; distinct by '
-        '(part, input) hash')
+        '(some named like the packet) and 0-3 handlers.  Reachable table states: the table is brought by a history '
+        '(express, earlier Data / Nack / cancellation / expiry, Data under validation) into the state given by a word '
+        'over {waiting, waiting with a foreign implicit digest, caller gives up in the loop turn of the packet, lifetime '
+        'timer fires in the loop turn of the packet, given up / timed out / satisfied / nacked earlier, validator still '
+        'running, CanBePrefix parent waiting / given up in this turn, unrelated name}; several entries share the '
+        'packet\'s name, in every order: all words of length <= 2 (thorough: 3) + sampled words of length 3-6, against '
+        'Data (bare, in an LpPacket), Nack (with / without reason), Interest and dropped packets (cut, trailing byte, '
+        'fragment-labelled), handed over awaited / as a task created in the turn of the cancellation / as a task created in '
+        'the loop iteration in which the lifetime timers fire; plus random words around the packets of the mutant stream.  '
+        'Oracle there: reception returns normally, the waiting entries the packet addresses complete with it, nobody '
+        'else is touched, entries ending in that turn end with Canceled / Timeout (or the packet), everybody still '
+        'waiting completes with its own Data afterwards, nothing reaches the loop exception handler.  '
+        'non-trivial = stream/packet of >= 4 bytes; distinct by (part, input) hash')
 ASSUMPTIONS = [
     'asyncio.StreamReader.readexactly consumes nothing until n bytes are buffered; tasks start in creation order '
     '(modelled, exercised unmodified by the correspondence run)',
